@@ -1,12 +1,88 @@
-# C04 sorted sets: skip list (raw-pointer code, memory-safety checks ON), MAX_LEVEL shrunk 32 -> 4
-KI_SUBST = [(r"use crate::verif_std::HashMap;", "use self::verif_ovl_skiplist::KeyIndexModel as HashMap;", "src/storage/skiplist.rs")]
-group("skl", family="vec", shrinks={"MAX_LEVEL": 4}, overlays={"src/storage/skiplist.rs": "ovl_skiplist.rs"}, subst=KI_SUBST)
-group("zse", family="vec", shrinks={"MAX_LEVEL": 4, "SHARDS_PER_DATABASE": 2}, subst=KI_SUBST,
+# C04 sorted sets.
+# Group "skl": the skip list itself (raw-pointer code => memory-safety checks ON), MAX_LEVEL shrunk 32 -> 4.
+# Group "zse": engine z* operations on a sorted set built by the skip-list overlay (production key type).
+# key_index container: skiplist.rs's `use ...HashMap` line is pointed at a fixed-capacity model that
+# lives in the overlay (KeyIndexModel, 4 slots, no heap): with the Vec-backed family model every
+# push/remove on a map behind Arc<RwLock<..>> is a symbolic-size realloc/memmove and CBMC runs out
+# of memory on SkipList::insert.
+KI_SUBST = [(r"use (?:crate::verif_std|std::collections)::HashMap;", "use self::verif_ovl_skiplist::KeyIndexModel as HashMap;", "src/storage/skiplist.rs")]
+group("skl", family="vec", shrinks={"MAX_LEVEL": 4}, subst=KI_SUBST, fs_array=4096,
+      overlays={"src/storage/skiplist.rs": "ovl_skiplist.rs"})
+group("zse", family="vec", shrinks={"MAX_LEVEL": 4, "SHARDS_PER_DATABASE": 2}, subst=KI_SUBST, fs_array=4096,
       overlays={"src/storage/skiplist.rs": "ovl_skiplist.rs", "src/storage/engine.rs": "ovl_zset_engine.rs"})
+
+# reach checks only label UNREACHABLE and cost one solver round (50-150 s here) each; vacuity is
+# guarded by one explicit kani::cover! witness per harness instead
 NOREACH = ["--no-assertion-reach-checks"]
-for _n in ("c04_build_h213", "c04_insert_h121", "c04_remove_h213", "c04_rank_h213", "c04_byrank_h213", "c04_byscore_h213"):
-    K(_n, "skl", ["C04"], tier="quick", timeout=1200, memsafe=True, desc="wip", encodes=[], bounds="", stubs=[], extra=NOREACH)
-for _n in ("x_ins_a", "x_ins_b", "x_ins_c", "x_rem_v", "x_remove_a", "x_remove_d"):
-    K(_n, "skl", ["X04"], tier="thorough", timeout=1200, memsafe=True, desc="experiment", encodes=[], bounds="", stubs=[], extra=NOREACH)
-for _n in ("c04_e_zadd_rest", "c04_e_zadd_kf", "c04_e_zincrby_rest", "c04_e_zincrby_kf", "c04_e_zrem_n1", "c04_e_zrem_n2", "c04_e_zrange_rest", "c04_e_zrange_kf", "c04_e_zrank_n2", "c04_e_zrangebyscore_n2"):
-    K(_n, "zse", ["X04"], tier="thorough", timeout=1200, memsafe=True, desc="wip", encodes=[], bounds="", stubs=[], extra=NOREACH)
+SKL_STUBS = ["SkipList::random_level -> level chosen by the harness (concrete per harness, 0..MAX_LEVEL-1 = range of the real function)",
+             "SkipListInner::key_index: std HashMap -> KeyIndexModel (fixed-capacity finite map in the overlay; exceeding 4 entries is reported)",
+             "ThreadRng handle of the list -> never-used stand-in (rand::thread_rng cannot run under Kani)"]
+INV = ("structural invariant walked over all levels afterwards: level-0 chain strictly increasing by (score, member), no NaN, "
+       "every level == the nodes with a higher tower in level-0 order (sub-sequence + fully linked towers), level = highest non-empty level, "
+       "length == chain length == key_index.len(), index score == node score bit for bit, memory_usage consistent; all dereferences memory-safety-checked")
+PRE = "pre-state built directly: %s with arbitrary distinct one-byte members and arbitrary non-NaN f64 scores assumed strictly increasing by (score, member) (incl. equal scores, +-0.0, +-inf); MAX_LEVEL = 4; unwind 5"
+
+
+# measured (3 in parallel, fs_array 4096): build 7 s, rank 15 s, byrank 11 s, byscore 25 s, remove 305 s, insert_h12_l2 339 s,
+# rescore_h121_l1 419 s; thorough: insert_new_h121_l1 348 s, insert_h12_l1 321 s
+def S(name, tier, desc, enc, shape, extra_b="", timeout=1500, native=True):
+    K(name, "skl", ["C04"], tier=tier, timeout=timeout, memsafe=True, fs_array=4096, extra=NOREACH, native_replay=native,
+      desc=desc + "; " + INV, encodes=enc, bounds=(PRE % shape) + ("; " + extra_b if extra_b else ""), stubs=SKL_STUBS)
+
+
+S("c04_build_h213", "quick", "the overlay's builder yields a list satisfying the invariant (validates builder + walker, vacuity witness)",
+  [], "3 nodes, towers (2,1,3)", timeout=600)
+S("c04_remove_h213", "quick", "ONE SkipList::remove(key), key = any byte (first / middle / last member or absent): returns the member's score, exactly that member leaves, others keep scores",
+  ["SkipList::remove", "SkipList::remove_node_by_score", "SkipList::compare_with_query"], "3 nodes, towers (2,1,3)")
+S("c04_rescore_h121_l1", "quick", "ONE SkipList::insert(key, score) on an EXISTING member with an arbitrary new score (moves across neighbours, equal scores, +-0.0, +-inf): returns old score, cardinality kept, member present once with the new score",
+  ["SkipList::insert", "SkipList::remove_node_by_score", "SkipList::insert_new_node", "SkipList::compare_nodes", "SkipList::compare_with_query"],
+  "3 nodes, towers (1,2,1)", "new tower level 1 (2 slots)", native=False)
+S("c04_insert_h12_l2", "quick", "ONE SkipList::insert(key, score), key = any byte (new member or re-score), new tower higher than the list level (list level raised)",
+  ["SkipList::insert", "SkipList::remove_node_by_score", "SkipList::insert_new_node"], "2 nodes, towers (1,2)", "new tower level 2 (3 slots)", native=False)
+S("c04_rank_h213", "quick", "get_score / get_rank / len / is_empty for any key byte: rank == position in (score, member) order, absent => None; list unchanged",
+  ["SkipList::get_score", "SkipList::get_rank", "SkipList::len", "SkipList::is_empty"], "3 nodes, towers (2,1,3)")
+S("c04_byrank_h213", "quick", "get_by_rank(r) and range_by_rank(a, b) for all usize r, a, b (reversed, out of range, usize::MAX): exactly the members of ranks a..=min(b,len-1) in order; list unchanged",
+  ["SkipList::get_by_rank", "SkipList::range_by_rank"], "3 nodes, towers (2,1,3)")
+S("c04_byscore_h213", "quick", "range_by_score(min, max) for all non-NaN f64 bounds (reversed, +-inf, +-0.0): exactly the members with min <= score <= max in order; list unchanged",
+  ["SkipList::range_by_score"], "3 nodes, towers (2,1,3)")
+S("c04_insert_new_h121_l1", "thorough", "ONE SkipList::insert of a NEW member with an arbitrary score into a 3-node list",
+  ["SkipList::insert", "SkipList::insert_new_node", "SkipList::compare_nodes"], "3 nodes, towers (1,2,1)", "new tower level 1", native=False)
+S("c04_insert_h12_l1", "thorough", "ONE SkipList::insert(key, score), key = any byte, new tower as high as the list",
+  ["SkipList::insert", "SkipList::remove_node_by_score", "SkipList::insert_new_node"], "2 nodes, towers (1,2)", "new tower level 1", native=False)
+
+ZSE_STUBS = SKL_STUBS + STD_STUBS + ["SkipList::new -> assert(false): only the absent-key branches of zadd/zincrby call it and every harness starts with the key present (shard-map insertion of a fresh set is outside these harnesses)"]
+ZPRE = "key 'z' of db 0 holds a sorted set built directly (%s, production key type Vec<u8> with one-byte members, arbitrary non-NaN scores in order); 1 database, SHARDS_PER_DATABASE = 2, MAX_LEVEL = 4; unwind 5"
+
+
+# measured (3 in parallel, fs_array 4096): zrange_rest 62 s, zrange_kf 63 s, zrank 45 s, zrangebyscore 245 s, zadd_kf 286 s,
+# zincrby_kf 279 s; thorough: zincrby_rest 634 s, zadd_rest 374 s alone but at the 14 GB limit (went out of memory once
+# when run next to two other harnesses) -> thorough, run it with VERIF_JOBS <= 3
+def Z(name, tier, desc, enc, shape, expect="hold", timeout=1500, native=True, assumptions=()):
+    K(name, "zse", ["C04"], tier=tier, timeout=timeout, memsafe=True, fs_array=4096, extra=NOREACH, native_replay=native, expect=expect,
+      desc=desc, encodes=enc, bounds=ZPRE % shape, stubs=ZSE_STUBS, assumptions=list(assumptions))
+
+
+Z("c04_e_zrange_rest", "quick", "ZRANGE / ZREVRANGE index translation: start, stop = all isize values, both directions, outside region R: reply == Redis zrangeGenericCommand model (items and order), set unchanged",
+  ["StorageEngine::zrange", "SkipList::range_by_rank", "SkipList::len"], "2 members, towers (1,1)",
+  assumptions=["not R, R = stop < -len || (reverse && start >= len)"])
+Z("c04_e_zrange_kf", "quick", "same inside region R = stop < -len || (reverse && start >= len): expected to fail (ZRANGE z 0 -3 on 2 members returns the first member; ZREVRANGE z 2 5 returns the lowest member; Redis: empty)",
+  ["StorageEngine::zrange"], "2 members, towers (1,1)", expect="kf:KF-C04-zrange-index")
+Z("c04_e_zadd_rest", "thorough", "ZADD z score m on an existing set, any member byte, any non-NaN score: reply = is-new, member present once with latest score, others unchanged, invariant holds, key still a sorted set",
+  ["StorageEngine::zadd", "SkipList::insert", "SkipList::insert_new_node", "SkipList::remove_node_by_score"], "1 member, tower (1), new tower level 1",
+  native=False, assumptions=["score is not NaN"])
+Z("c04_e_zadd_kf", "quick", "ZADD with a NaN score must be refused and change nothing: expected to fail (engine stores NaN; the member can then never be removed)",
+  ["StorageEngine::zadd"], "1 member, tower (1), new tower level 1", expect="kf:KF-C04-zadd-nan", native=False)
+Z("c04_e_zincrby_rest", "thorough", "ZINCRBY z incr m on an existing set, any member byte, any increment whose result is a number: reply == old + incr (incr for a new member), set updated accordingly, invariant holds",
+  ["StorageEngine::zincrby", "SkipList::get_score", "SkipList::insert"], "1 member, tower (1), new tower level 0",
+  native=False, assumptions=["old score + increment is not NaN"])
+Z("c04_e_zincrby_kf", "quick", "ZINCRBY whose result is NaN (NaN increment, +inf + -inf) must be refused and change nothing: expected to fail",
+  ["StorageEngine::zincrby"], "1 member, tower (1), new tower level 0", expect="kf:KF-C04-zincrby-nan", native=False)
+Z("c04_e_zrank_n2", "quick", "ZRANK / ZREVRANK / ZSCORE / ZCARD for any member byte: rank == position (len-1-position reversed), score, cardinality; set unchanged",
+  ["StorageEngine::zrank", "StorageEngine::zscore", "StorageEngine::zcard", "SkipList::get_rank", "SkipList::get_score"], "2 members, towers (2,1)")
+Z("c04_e_zrangebyscore_n2", "quick", "ZRANGEBYSCORE / ZREVRANGEBYSCORE / ZCOUNT for all non-NaN bounds: the members inside the bounds in (reversed) order, count equal",
+  ["StorageEngine::zrangebyscore", "StorageEngine::zcount", "SkipList::range_by_score"], "2 members, towers (1,2)")
+
+# Engine M: handler-level obligations of C04 (Server methods are out of Kani's reach)
+M("c04_zadd_atomic", ["C04", "C01"], "no_error_after", tier="quick",
+  desc="Server::handle_zadd: no argument-error reply (bad score, NaN, bad member) is reachable after StorageEngine::zadd has taken effect for an earlier pair - a refused multi-member ZADD adds nothing (loop heads carry an arbitrary number of earlier iterations' effects)",
+  fn=r"::handle_zadd$", effect=r"StorageEngine::zadd$", error=r"RespFrame::error")
